@@ -343,10 +343,14 @@ Definition do_admit (s : st) : option st :=
       else None
   | _ => None
   end.
+(* recvQueueChan <- msg.  recvLoop receives from the channel as soon as it has
+   the token and only then asks stateLoop for the transition; the model takes
+   the message out of recvq at the transition (Handle), so while recvLoop is in
+   LWaitMsg the head of recvq may already have left the channel: one more slot *)
 Definition do_put (s : st) : option st :=
   match rph (rc s) with
   | RPut m =>
-      if N.of_nat (length (recvq (rc s))) <? rqcap
+      if N.of_nat (length (recvq (rc s))) <? rqcap + (match lph (rc s) with LWaitMsg => 1 | _ => 0 end)
       then Some (with_rc s {| rbuf := rbuf (rc s) - m_len m;
                               rph := if m_len m <? rbuf (rc s) then RDecode else RWaitSeg;
                               recvq := recvq (rc s) ++ [m]; pendR := pendR (rc s); sizes := sizes (rc s);
